@@ -66,6 +66,10 @@ pub enum IdKind {
     Zero,
     Max,
     Next,
+    /// the request's id with bit 32 set (equal modulo 2^32)
+    High32,
+    /// the request's id with the top bit flipped
+    Top,
 }
 
 #[derive(Clone, Debug, Serialize, Deserialize)]
@@ -205,11 +209,13 @@ pub fn gen(rng: &mut Rng, focus: Focus) -> ClientScn {
             plan.push(ReplyScn { when: when(rng), id: IdKind::Same, err: rng.chance(err_p) });
             plan.push(ReplyScn { when: when(rng), id: IdKind::Same, err: rng.chance(err_p) });
         } else {
-            let stray = match rng.below(5) {
+            let stray = match rng.below(7) {
                 0 => IdKind::Finished,
                 1 => IdKind::Unknown,
                 2 => IdKind::Zero,
                 3 => IdKind::Max,
+                4 => IdKind::High32,
+                5 => IdKind::Top,
                 _ => IdKind::Next,
             };
             let first_stray = rng.chance(500);
@@ -233,6 +239,10 @@ pub fn gen(rng: &mut Rng, focus: Focus) -> ClientScn {
         for _ in 0..rng.range(1, 2) {
             stalls.push((rng.range(0, 15), rng.range(1, 30)));
         }
+    }
+    if focus == Focus::Deadlines && rng.chance(60) {
+        // a sink that stops accepting writes for good: deadlines must still be enforced
+        stalls.push((rng.range(0, 6), 50_000_000));
     }
     let mut unsolicited = Vec::new();
     if rng.chance(150) {
@@ -334,7 +344,9 @@ pub fn horizon_ms(s: &ClientScn) -> u64 {
         h = h.max(c.start_ms + d.min(1 << 38));
     }
     for (a, d) in &s.stalls {
-        h = h.max(a + d);
+        if *d < 1_000_000 {
+            h = h.max(a + d);
+        }
     }
     (h + 3_000).min(4_000_000)
 }
@@ -555,6 +567,8 @@ pub async fn peer_task(
                 IdKind::Zero => 0,
                 IdKind::Max => u64::MAX,
                 IdKind::Next => id + 1,
+                IdKind::High32 => id | (1 << 32),
+                IdKind::Top => id ^ (1 << 63),
             };
             if rid == id {
                 finished.push(id);
@@ -992,6 +1006,7 @@ pub fn check(scn: &ClientScn, log: &[Ev], horizon_reached: bool, sim: &Sim) -> V
     }
     let end_seq = teardown.unwrap_or(u64::MAX);
     let _ = end_seq;
+    let dispatch_end = dispatch_done.as_ref().map(|d| d.0).or(dispatch_killed);
 
     // ---- C01 / C05: what each call resolved with
     for (i, c) in calls.iter().enumerate() {
@@ -1052,6 +1067,18 @@ pub fn check(scn: &ClientScn, log: &[Ev], horizon_reached: bool, sim: &Sim) -> V
                     }
                 }
             }
+        } else if c.abandon.is_none() && !c.skipped && c.r_send.map(|r| r.2).unwrap_or(false) && first_reply.is_none() && first_fail.is_none() && dispatch_killed.is_none() && read_eof.is_none() && !sim.overrun.get() && !far_deadlines && !panicked {
+            // transmitted, never answered, deadline long past, still pending: the deadline is
+            // not being enforced (whatever the sink is doing)
+            let end_t = log.last().map(|e| e.t).unwrap_or(0);
+            if end_t >= c.deadline + 2 {
+                v.push(viol("C05", "late", &["never"], format!("call {i}: request transmitted at t={}, deadline {}, no reply, still pending at t={end_t}", c.r_send.unwrap().1, c.deadline)));
+            }
+            if stall_depth == 0 {
+                v.push(viol("C02", "hang", &[if horizon_reached { "horizon" } else { "stopped" }], format!("call {i} (id {:?}, deadline {}) still pending at the end of the run; {}", c.id, c.deadline, missing_wake_hint(log, dispatch_task))));
+            }
+        } else if c.abandon.is_none() && !c.skipped && stall_depth > 0 {
+            // the sink never became writable again: outside C02's precondition
         } else if c.abandon.is_none() && !c.skipped {
             // unresolved at the end of the run (calls whose deadline lies beyond the run's
             // horizon are legitimately still pending)
@@ -1065,6 +1092,34 @@ pub fn check(scn: &ClientScn, log: &[Ev], horizon_reached: bool, sim: &Sim) -> V
             }
         }
         // C05.late for calls that never resolved is the C02 hang above.
+    }
+
+    // ---- C02: the deadline timer must wake the dispatch. For every transmitted, unanswered,
+    // un-abandoned call whose deadline passes while the dispatch is alive, the dispatch task has
+    // to be polled at that instant (timer granularity: within 2 ms), whatever the sink is doing.
+    if let Some(dt) = dispatch_task {
+        let end_t = log.last().map(|e| e.t).unwrap_or(0);
+        let polls: Vec<i64> = log.iter().filter(|e| e.task == dt && matches!(e.kind, EvKind::PollBegin)).map(|e| e.t).collect();
+        for (i, c) in calls.iter().enumerate() {
+            let Some((rs, ts, true)) = c.r_send else { continue };
+            let due = c.deadline.max(ts);
+            if due + 2 > end_t || far_deadlines {
+                continue;
+            }
+            let t_of = |seq: u64| log.get(seq as usize).map(|e| e.t).unwrap_or(i64::MAX);
+            let replied_before = c.id.map(|id| nexts.iter().any(|x| x.2 == id && x.0 > rs && x.1 <= due + 2)).unwrap_or(false);
+            let abandoned_before = c.abandon.map(|a| a.1 <= due + 2).unwrap_or(false);
+            let resolved_before = c.resolve.as_ref().map(|r| r.1 < due).unwrap_or(false);
+            let dispatch_over = dispatch_end.map(|d| t_of(d) <= due + 2).unwrap_or(false);
+            let failed = first_fail.map(|f| t_of(f.0) <= due + 2).unwrap_or(false);
+            let eof = read_eof.map(|r| t_of(r) <= due + 2).unwrap_or(false);
+            if replied_before || abandoned_before || resolved_before || dispatch_over || failed || eof || panicked {
+                continue;
+            }
+            if !polls.iter().any(|t| *t >= due && *t <= due + 2) {
+                v.push(viol("C02", "lost-wake", &["timer"], format!("call {i}: deadline {} (request transmitted at {ts}) passed with no reply, but the dispatch was not polled between t={due} and t={}: the timer did not wake it", c.deadline, due + 2)));
+            }
+        }
     }
 
     // ---- C03 sink sequence per id + obligation
@@ -1085,7 +1140,6 @@ pub fn check(scn: &ClientScn, log: &[Ev], horizon_reached: bool, sim: &Sim) -> V
             }
         }
     }
-    let dispatch_end = dispatch_done.as_ref().map(|d| d.0).or(dispatch_killed);
     for (iseq, it, writable) in &idles {
         if !*writable {
             continue;
@@ -1235,6 +1289,7 @@ pub fn check(scn: &ClientScn, log: &[Ev], horizon_reached: bool, sim: &Sim) -> V
                         let t_close = log.iter().find(|e| e.seq == cseq).map(|e| e.t).unwrap_or(0);
                         if !replied && c.deadline > t_close {
                             v.push(viol("C10", "close-before-drain", &[], format!("call {i} (id {:?}) abandoned with its request on the wire, but the transport was closed (seq {cseq}) without its cancel", c.id)));
+                            v.push(viol("C03", "missing-cancel", &["at-close"], format!("call {i} (id {:?}) abandoned at seq {adone} with its request on the wire; the dispatch closed the transport (seq {cseq}) without ever transmitting its cancel", c.id)));
                         }
                     }
                 }
